@@ -799,12 +799,63 @@ func (c *Ctx) indexConstKeys(fd *ast.FuncDecl, root types.Object) []string {
 	return out
 }
 
+// presenceHelper finds, by role, the helper through which the decoder of the type fills its receiver from a
+// generic map (so that a present-but-empty member can be told from an absent one): the method fromMap, or else a
+// package function called by the type's UnmarshalJSON that takes a map[string]interface{} and a pointer to the type.
+// Returns the function and the index of its map parameter.
+func (c *Ctx) presenceHelper(typ string) (*types.Func, int) {
+	isGenericMap := func(t types.Type) bool {
+		mp, ok := t.Underlying().(*types.Map)
+		if !ok || !isStringType(mp.Key()) {
+			return false
+		}
+		it, ok := mp.Elem().Underlying().(*types.Interface)
+		return ok && it.Empty()
+	}
+	mapParam := func(g *types.Func) int {
+		sig := g.Type().(*types.Signature)
+		for i := 0; i < sig.Params().Len(); i++ {
+			if isGenericMap(sig.Params().At(i).Type()) {
+				return i
+			}
+		}
+		return -1
+	}
+	if m := c.method(typ, "fromMap"); m != nil && c.decl(m) != nil {
+		if i := mapParam(m); i >= 0 {
+			return m, i
+		}
+	}
+	u := c.method(typ, "UnmarshalJSON")
+	if u == nil {
+		return nil, 0
+	}
+	for _, g := range c.staticCallees(u) {
+		i := mapParam(g)
+		if i < 0 {
+			continue
+		}
+		sig := g.Type().(*types.Signature)
+		takes := sig.Recv() != nil && isNamed(sig.Recv().Type(), c.Types, typ)
+		for k := 0; k < sig.Params().Len(); k++ {
+			if _, isPtr := sig.Params().At(k).Type().(*types.Pointer); isPtr && isNamed(sig.Params().At(k).Type(), c.Types, typ) {
+				takes = true
+			}
+		}
+		if takes {
+			return g, i
+		}
+	}
+	return nil, 0
+}
+
 func ruleRefKey(c *Ctx) {
 	const rule = "ref-key"
 	type pair struct{ typ, key string }
 	for _, pr := range []pair{{"Ref", "$ref"}, {"SchemaURL", "$schema"}} {
 		m := c.decl(c.method(pr.typ, "MarshalJSON"))
-		fm := c.decl(c.method(pr.typ, "fromMap"))
+		fmFunc, mapIdx := c.presenceHelper(pr.typ)
+		fm := c.decl(fmFunc)
 		if m == nil {
 			c.undecided(rule, pr.typ+".MarshalJSON", token.NoPos, "encoder not found")
 		} else {
@@ -835,7 +886,7 @@ func ruleRefKey(c *Ctx) {
 			c.undecided(rule, pr.typ+".fromMap", token.NoPos, "decoder helper not found")
 		} else {
 			c.saw(c.funcName(fm))
-			keys := c.indexConstKeys(fm, c.paramObj(fm, 0))
+			keys := c.indexConstKeys(fm, c.paramObj(fm, mapIdx))
 			ok := len(keys) > 0
 			for _, k := range keys {
 				if k != pr.key {
@@ -919,8 +970,10 @@ func ruleRefKey(c *Ctx) {
 		if u := c.decl(c.method(pr.typ, "UnmarshalJSON")); u != nil && fm != nil {
 			via := false
 			ast.Inspect(u.Body, func(n ast.Node) bool {
-				if call, ok := n.(*ast.CallExpr); ok && c.isSpecMethod(call, pr.typ, "fromMap") {
-					via = true
+				if call, ok := n.(*ast.CallExpr); ok {
+					if g, _ := c.callee(call).(*types.Func); g != nil && g == fmFunc {
+						via = true
+					}
 				}
 				return true
 			})
@@ -1001,8 +1054,12 @@ func (c *Ctx) verbatimMember(fd *ast.FuncDecl, e ast.Expr, defs map[types.Object
 	case *ast.TypeAssertExpr:
 		return c.verbatimMember(fd, x.X, defs, depth+1)
 	case *ast.IndexExpr:
-		if id, ok := unparen(x.X).(*ast.Ident); ok && c.objOf(id) == c.paramObj(fd, 0) {
-			return true, ""
+		if id, ok := unparen(x.X).(*ast.Ident); ok {
+			if o := c.objOf(id); o != nil && fd.Type.Params != nil && o.Pos() >= fd.Type.Params.Pos() && o.Pos() <= fd.Type.Params.End() {
+				if _, isMap := o.Type().Underlying().(*types.Map); isMap {
+					return true, ""
+				}
+			}
 		}
 		return false, "read from " + exprString(x.X)
 	case *ast.CallExpr:
